@@ -1,4 +1,6 @@
 import MV.Lemmas.Ring
+import MV.Props.C15Unbounded
+import MV.Props.C15Queues
 /-!
 # C15 — queues, ring buffers and unbounded channels are loss-free FIFOs
 
